@@ -651,7 +651,10 @@ func (r *rateLimiter) cleanupUnknownCondition() {
 				continue
 			}
 
-			if len(condition.Spec.Instance) > 0 {
+			// An instance that is not in the snapshot taken above but is known by now has joined since (a gateway
+			// sends its first heartbeat before its first report, so a condition that is listed here belongs to
+			// an instance that had heartbeated before the listing): it is alive, its condition stays.
+			if len(condition.Spec.Instance) > 0 && !r.clientCache.Has(condition.Spec.Instance) {
 				r.deleteCondition(limitStore, condition, fmt.Sprintf("client %s not exist", condition.Spec.Instance))
 				clientsToDelete[condition.Spec.Instance] = true
 			}
